@@ -634,6 +634,111 @@ theorem refuse_clash (fc : Char → Char) (base : List Name) (nStd : Nat) (lib :
   | nil => exact absurd hd hne
   | cons x xs => exact ⟨x :: xs, by simp⟩
 
+/-! ## several versions under one prefix -/
+
+theorem nodup_of_map {α β} (f : α → β) (l : List α) (h : (l.map f).Nodup) : l.Nodup := by
+  induction l with
+  | nil => exact List.nodup_nil
+  | cons x xs ih =>
+    simp only [List.map_cons, List.nodup_cons] at h ⊢
+    exact ⟨fun hx => h.1 (List.mem_map.mpr ⟨x, hx, rfl⟩), ih h.2⟩
+
+/-- the group constructor's test implies the hypothesis of the dispatch theorems -/
+theorem wellFormed_distinct (fc : Char → Char) (g : Group) (h : wellFormed fc g = true) :
+    (prefixes g).Nodup := by
+  simp only [wellFormed, Bool.and_eq_true, decide_eq_true_eq] at h
+  exact nodup_of_map _ _ h.2
+
+/-- … and two prefixes differing only in case are refused (`unique_case_collision_counterexample` is about
+a group the constructor no longer builds) -/
+example : wellFormed Char.toLower
+    [(['a', ':'], ⟨Vocab.build id [], [], []⟩), (['A', ':'], ⟨Vocab.build id [], [], []⟩)] = false := by decide
+
+theorem placeAll_unrooted (base : Vocab) (fc : Char → Char) (nStd : Nat) (ns : List Name) :
+    placeAll base fc nStd [] (ns.map fun n => (n, none)) = .ok ns := by
+  induction ns with
+  | nil => rfl
+  | cons n rest ih =>
+    simp only [List.map_cons, placeAll]
+    split <;> simp [ih, Except.map]
+
+/-- **A schema that is not partnered, or names another partner, is never appended**: loading `a,b,…`
+under one prefix is refused by the header guards unless `a` is a partnered library and `b` names the same
+standard schema — in particular a standard schema after a library, a library after a standard schema and
+two standard schemas are refused whatever their tags. -/
+theorem refuse_unpartnered (fc : Char → Char) (a b : Source) (rest : List Source)
+    (h : a.withStandard = [] ∨ b.withStandard ≠ a.withStandard) :
+    loadVersions fc a (b :: rest) = .error .notPartnered ∨
+    loadVersions fc a (b :: rest) = .error .withStandardDiffers := by
+  unfold loadVersions
+  rw [List.foldlM_cons]
+  by_cases h1 : a.withStandard = []
+  · left; simp [appendSource, h1, bind, Except.bind]
+  · right
+    have h2 : b.withStandard ≠ a.withStandard := by
+      rcases h with h | h
+      · exact absurd h h1
+      · exact h
+    have h1' : a.withStandard.isEmpty = false := by
+      cases hw : a.withStandard with
+      | nil => exact absurd hw h1
+      | cons c cs => rfl
+    have h2' : (b.withStandard != a.withStandard) = true := by simpa using h2
+    simp [appendSource, h1', h2', bind, Except.bind]
+
+/-- what a successful two-version load guarantees: same (non-empty) partner, the first file's tags
+unchanged at the head, only library tags of the second appended, and no short name bound twice -/
+theorem load_two_ok (fc : Char → Char) (a b : Source) (m : List Name)
+    (h : loadVersions fc a [b] = .ok m) :
+    a.withStandard ≠ [] ∧ b.withStandard = a.withStandard ∧
+    m = a.names ++ b.libNames ∧ (Vocab.build (foldS fc) m).dups = [] := by
+  unfold loadVersions at h
+  simp only [List.foldlM_cons, List.foldlM_nil, bind_pure] at h
+  unfold appendSource at h
+  split at h
+  · cases h
+  · rename_i hw
+    split at h
+    · cases h
+    · rename_i hb
+      split at h
+      · rename_i m' hm
+        injection h with h
+        subst h
+        have sh := mergeInto_shape fc _ _ _ _ hm
+        refine ⟨?_, by simpa using hb, ?_, sh.2⟩
+        · intro hnil; simp [hnil] at hw
+        · unfold mergeInto place at hm
+          rw [placeAll_unrooted] at hm
+          simp only [Except.map] at hm
+          split at hm
+          · injection hm with hm; exact hm.symm
+          · cases hm
+      · cases h
+
+/-- **Clashing names under one prefix are refused (whole load).** If a tag of the first file and a library
+tag of the second have the same folded short name, the load fails — by a header guard or by the duplicate
+check. -/
+theorem refuse_shared_name (fc : Char → Char) (a b : Source) (i k : Nat) (x y : Name)
+    (hx : a.names[i]? = some x) (hy : b.libNames[k]? = some y) (hform : [nameKey x] ∈ forms x)
+    (hsame : foldS fc (nameKey x) = foldS fc (nameKey y)) :
+    ∃ e, loadVersions fc a [b] = .error e := by
+  cases hl : loadVersions fc a [b] with
+  | error e => exact ⟨e, rfl⟩
+  | ok m =>
+    exfalso
+    obtain ⟨_, _, hm, hd⟩ := load_two_ok fc a b m hl
+    have hi : i < a.names.length := by
+      rcases Nat.lt_or_ge i a.names.length with h1 | h1
+      · exact h1
+      · simp [List.getElem?_eq_none h1] at hx
+    have ha : m[i]? = some x := by rw [hm, List.getElem?_append_left hi]; exact hx
+    have hb : m[a.names.length + k]? = some y := by
+      rw [hm, List.getElem?_append_right (by omega)]
+      simpa using hy
+    have := register_clash (foldS fc) m 0 [] [] i (a.names.length + k) x y (by omega) ha hb hform hsame
+    exact this (by simpa [Vocab.build] using hd)
+
 /-! ## non-vacuity -/
 
 /-- a two-member group; prefixed and unprefixed lookups; unknown prefix -/
@@ -654,6 +759,18 @@ example :
       = some [[['E']], [['E'], ['S']], [['E'], ['S'], ['L']], [['E'], ['S'], ['L'], ['M']], [['T']]] ∧
     (merge id [[['E']], [['E'], ['S']]] [([['S']], none)]).toOption = none ∧
     (merge id [[['E']]] [([['L']], some ['X'])]).toOption = none := by
+  decide
+
+/-- loading under one prefix: same-partner libraries merge, anything else is refused -/
+example :
+    let std : Source := ⟨[], [([['E']], false)]⟩
+    let l1 : Source := ⟨['8'], [([['E']], false), ([['E'], ['A']], true)]⟩
+    let l2 : Source := ⟨['8'], [([['E']], false), ([['B']], true)]⟩
+    let l3 : Source := ⟨['8'], [([['E']], false), ([['E'], ['a']], true)]⟩
+    (loadVersions Char.toLower l1 [l2]).toOption = some [[['E']], [['E'], ['A']], [['B']]] ∧
+    (match loadVersions Char.toLower l1 [std] with | .error .withStandardDiffers => true | _ => false) = true ∧
+    (match loadVersions Char.toLower std [l1] with | .error .notPartnered => true | _ => false) = true ∧
+    (loadVersions Char.toLower l1 [l3]).toOption = none := by
   decide
 
 /-- version lists -/
